@@ -167,6 +167,84 @@ fn mesh1d(case: &mut Case) -> Result<(), String> {
         }
         case.class("1-D linear integrand");
     }
+    // ---- queries interleaved with writes: an answer must reflect the data as they are *now* (an implementation may
+    //      cache the last cell, its slope, cell widths, partial sums ...), through every write path
+    let steps = case.src.urange(4, 24);
+    let mut last_cell = case.src.usize_below(n - 1);
+    for step in 0..steps {
+        match case.src.below(6) {
+            0 | 1 => {
+                // interpolate: usually in the cell used last, sometimes elsewhere
+                let i = if case.src.below(3) == 0 { case.src.usize_below(n - 1) } else { last_cell };
+                last_cell = i;
+                let h = grid[i + 1] - grid[i];
+                let x = grid[i] + case.src.f64_in(0.05, 0.95) * h;
+                if (x - grid[i]).abs() < 1e-6 || (grid[i + 1] - x).abs() < 1e-6 {
+                    continue;
+                }
+                let got = mesh.get_interpolated_vars(x).vec;
+                let scale = model.iter().flatten().fold(1.0f64, |a, b| a.max(b.abs()));
+                for v in 0..nv {
+                    let (l, r) = (model[i][v], model[i + 1][v]);
+                    let e = (Dd::from(l) + (Dd::from(r) - Dd::from(l)) * (Dd::from(x) - Dd::from(grid[i])).div(Dd::from(h))).to_f64();
+                    if !rel_close(got[v], e, scale) {
+                        return Err(format!("interleaved step {}: interpolation at x = {:e} in cell {} gives variable {} = {:e}, the data now stored give {:e} (nodal values {:e}, {:e})", step, x, i, v, got[v], e, l, r));
+                    }
+                }
+            }
+            2 => {
+                // write an end point of the cell used last through the index operator
+                let node = last_cell + case.src.usize_below(2);
+                let var = case.src.usize_below(nv);
+                let v = case.src.small_int(50) as f64;
+                if case.src.coin() {
+                    mesh[node][var] = v;
+                    model[node][var] = v;
+                } else {
+                    mesh[node][var] -= v;
+                    model[node][var] -= v;
+                }
+            }
+            3 => {
+                let node = if case.src.coin() { last_cell + case.src.usize_below(2) } else { case.src.usize_below(n) };
+                let v: Vec<f64> = (0..nv).map(|_| case.src.small_int(50) as f64).collect();
+                mesh.set_nodes_vars(node, Vector::create(v.clone()));
+                model[node] = v;
+            }
+            4 => {
+                let v = case.src.usize_below(nv);
+                let mut sdd = Dd::ZERO;
+                let mut mag = 0.0;
+                for i in 0..n - 1 {
+                    let h = grid[i + 1] - grid[i];
+                    sdd = sdd + Dd::from(0.5 * h) * (Dd::from(model[i][v]) + Dd::from(model[i + 1][v]));
+                    mag += (0.5 * h * (model[i][v].abs() + model[i + 1][v].abs())).abs();
+                }
+                let got = mesh.trapezium(v);
+                if !((got - sdd.to_f64()).abs() <= 1e-12 * (mag + 1.0)) {
+                    return Err(format!("interleaved step {}: trapezium({}) = {:e}, the data now stored give {:e}", step, v, got, sdd.to_f64()));
+                }
+            }
+            _ => {
+                // asking twice gives the same answer (a query must not disturb the state)
+                let i = last_cell;
+                let x = grid[i] + 0.5 * (grid[i + 1] - grid[i]);
+                if (x - grid[i]).abs() >= 1e-6 && (grid[i + 1] - x).abs() >= 1e-6 {
+                    let (a, b) = (mesh.get_interpolated_vars(x).vec, mesh.get_interpolated_vars(x).vec);
+                    if a != b {
+                        return Err(format!("interleaved step {}: two consecutive interpolations at x = {:e} give {:?} and {:?}", step, x, a, b));
+                    }
+                }
+            }
+        }
+    }
+    case.class("1-D queries interleaved with writes");
+    for i in 0..n {
+        if mesh[i].vec != model[i] {
+            return Err(format!("after the interleaved history node {} holds {:?}, model {:?}", i, mesh[i].vec, model[i]));
+        }
+    }
+    let scale = model.iter().flatten().fold(1.0f64, |a, b| a.max(b.abs()));
     // ---- output -> read round trip
     let prec = case.src.urange(3, 12);
     let file = scratch_file();
@@ -399,6 +477,92 @@ fn mesh2d(case: &mut Case) -> Result<(), String> {
         }
         case.class("2-D bilinear integrand");
     }
+    // ---- queries interleaved with writes: every answer reflects the data as they are now (no stale cached sums,
+    //      matrices or cross-sections), whichever write path was used
+    let quad = |model: &Vec<Vec<Vec<f64>>>, v: usize| -> (f64, f64, f64, f64) {
+        let (mut s, mut s2) = (Dd::ZERO, Dd::ZERO);
+        let (mut mag, mut mag2) = (0.0, 0.0);
+        for i in 0..nx - 1 {
+            let dx = gx[i + 1] - gx[i];
+            for j in 0..ny - 1 {
+                let dy = gy[j + 1] - gy[j];
+                let w = Dd::prod(0.25 * dx, dy);
+                let (mut t, mut t2) = (Dd::ZERO, Dd::ZERO);
+                for q in [model[i][j][v], model[i + 1][j][v], model[i][j + 1][v], model[i + 1][j + 1][v]] {
+                    t = t + Dd::from(q);
+                    t2 = t2 + Dd::prod(q, q);
+                    mag += 0.25 * dx * dy * q.abs();
+                    mag2 += 0.25 * dx * dy * q * q;
+                }
+                s = s + w * t;
+                s2 = s2 + w * t2;
+            }
+        }
+        (s.to_f64(), s2.to_f64(), mag, mag2)
+    };
+    let steps = case.src.urange(3, 16);
+    for step in 0..steps {
+        let (i, j) = (case.src.usize_below(nx), case.src.usize_below(ny));
+        match case.src.below(7) {
+            0 | 1 => {
+                let var = case.src.usize_below(nv);
+                let v = case.src.small_int(50) as f64;
+                if case.src.coin() {
+                    mesh[(i, j)][var] = v;
+                    model[i][j][var] = v;
+                } else {
+                    mesh[(i, j)][var] += v;
+                    model[i][j][var] += v;
+                }
+            }
+            2 => {
+                let v: Vec<f64> = (0..nv).map(|_| case.src.small_int(50) as f64).collect();
+                mesh.set_nodes_vars(i, j, Vector::create(v.clone()));
+                model[i][j] = v;
+            }
+            3 => {
+                let v = case.src.usize_below(nv);
+                let (e, e2, mag, mag2) = quad(&model, v);
+                let (got, got2) = (mesh.trapezium(v), mesh.square_trapezium(v));
+                if !((got - e).abs() <= 1e-12 * (mag + 1.0)) || !((got2 - e2).abs() <= 1e-12 * (mag2 + 1.0)) {
+                    return Err(format!("interleaved step {}: trapezium({}) = {:e} / square_trapezium = {:e}, the data now stored give {:e} / {:e}", step, v, got, got2, e, e2));
+                }
+            }
+            4 => {
+                let v = case.src.usize_below(nv);
+                let m = mesh.var_as_matrix(v);
+                if m[(i, j)] != model[i][j][v] || m.rows() != nx || m.cols() != ny {
+                    return Err(format!("interleaved step {}: var_as_matrix({})[({},{})] = {}, the data now stored give {}", step, v, i, j, m[(i, j)], model[i][j][v]));
+                }
+            }
+            5 => {
+                let sx = mesh.cross_section_xnode(i);
+                let sy = mesh.cross_section_ynode(j);
+                if sx.get_nodes_vars(j).vec != model[i][j] || sy.get_nodes_vars(i).vec != model[i][j] || mesh.get_nodes_vars(i, j).vec != model[i][j] {
+                    return Err(format!("interleaved step {}: cross-sections through node ({},{}) give {:?} / {:?}, stored {:?}", step, i, j, sx.get_nodes_vars(j).vec, sy.get_nodes_vars(i).vec, model[i][j]));
+                }
+            }
+            _ => {
+                if case.src.below(3) == 0 {
+                    let var = case.src.usize_below(nv);
+                    mesh.apply(&|x, y| bc + ba * x - bb * y, var);
+                    for p in 0..nx {
+                        for q in 0..ny {
+                            model[p][q][var] = bc + ba * gx[p] - bb * gy[q];
+                        }
+                    }
+                }
+            }
+        }
+    }
+    case.class("2-D queries interleaved with writes");
+    for i in 0..nx {
+        for j in 0..ny {
+            if mesh[(i, j)].vec != model[i][j] {
+                return Err(format!("after the interleaved history node ({},{}) holds {:?}, model {:?}", i, j, mesh[(i, j)].vec, model[i][j]));
+            }
+        }
+    }
     Ok(())
 }
 
@@ -411,7 +575,7 @@ impl Prop for C19 {
          write histories of 1..=30 steps through set_nodes_vars, IndexMut, +=, apply (bilinear function) and assign against an array model. Checked: nnodes/nvars/nodes/coord/xnodes/ynodes, get_nodes_vars and the index operator at every node, \
          cross_section_xnode/ynode (other direction's nodes, right row/column), var_as_matrix (nx x ny, entry (i,j)); 1-D interpolation at every node (nodal value) and at the mid-point, two random interior points and two points 2e-6..1e-4 inside either end of every cell (all at least 1e-6 from a node) \
          (linear interpolant, 1e-12 relative); trapezium and square_trapezium against the double-double sum of cell contributions, and against the closed form for linear (1-D) / bilinear (2-D) data; output(file, precision 3..=12) then read into a mesh that previously had 2..=16 nodes and other data \
-         reproduces nodes and variables within 0.5*10^-precision, and the mesh read back answers every access path, trapezium and interpolation consistently. Non-trivial: non-uniform grid with >= 3 nodes per direction (2-D: nx != ny as well). distinct = distinct decoded choice sequence."
+         reproduces nodes and variables within 0.5*10^-precision, and the mesh read back answers every access path, trapezium and interpolation consistently; finally 4..=24 (2-D: 3..=16) steps of queries interleaved with writes through every write path (1-D: interpolation mostly in the cell just written, trapezium; 2-D: trapezium, square_trapezium, var_as_matrix, cross-sections), each answer compared with the model as it is at that moment. Non-trivial: non-uniform grid with >= 3 nodes per direction (2-D: nx != ny as well). distinct = distinct decoded choice sequence."
             .into()
     }
     fn assumptions(&self) -> Vec<String> {
@@ -421,7 +585,7 @@ impl Prop for C19 {
         ]
     }
     fn stream_len(&self, _tier: Tier) -> usize {
-        420
+        640
     }
     fn random_cases(&self, tier: Tier) -> usize {
         tier.pick(40_000, 600_000)
